@@ -262,8 +262,8 @@ def builtin(it, name):
         "len": b_len, "int": b_int, "float": b_float, "abs": b_abs, "round": b_round, "sum": b_sum,
         "min": b_minmax("min"), "max": b_minmax("max"), "sorted": b_sorted, "next": b_next,
         "isinstance": b_isinstance, "hasattr": b_hasattr, "getattr": b_getattr,
-        "enumerate": lambda x, start=0: list(enumerate(it.iterate(x), start)),
-        "zip": lambda *a: list(zip(*[list(it.iterate(x)) for x in a])),
+        "enumerate": lambda x, start=0: _ai().GenList(enumerate(it.iterate(x), start)),
+        "zip": lambda *a: _ai().GenList(zip(*[list(it.iterate(x)) for x in a])),
         "range": range, "slice": slice, "iter": lambda x: iter(it.iterate(x)),
         "filter": lambda f, xs: [x for x in it.iterate(xs) if (_ai().truth(x) if f is None else _ai().truth(it.call(f, [x], {})))],
         "map": lambda f, *xs: _ai().GenList(it.call(f, list(a), {}) for a in zip(*[list(it.iterate(x)) for x in xs])),
@@ -875,8 +875,15 @@ def load_subscript(it, obj, k):
         if isinstance(k, Vec):
             return _maskload(obj, k)
         if isinstance(k, slice):
-            r = Vec(obj.v[_int_slice(k, len(obj.v))])
+            sl = _int_slice(k, len(obj.v))
+            r = Vec(obj.v[sl])
             r.exact = obj.exact
+            if not (obj.aligned or obj.fresh):
+                # a basic slice of an ndarray is a view: stores through either name reach the same elements
+                r.base = (obj, list(range(len(obj.v)))[sl])
+                if not hasattr(obj, "views"):
+                    obj.views = []
+                obj.views.append((r, r.base[1]))
             return r
         if isinstance(k, (list, tuple)) and all(isinstance(i, int) and not isinstance(i, bool) for i in k):
             return Vec([obj.v[i] for i in k])
@@ -941,7 +948,30 @@ def df_select(d, mask):
     return out
 
 
+def sync_views(vec, _from=None):
+    """ndarray views (basic slices) share their elements with the array they were cut from: after a store into `vec`, bring the array it views and
+    the views cut from it up to date"""
+    b = getattr(vec, "base", None)
+    if b is not None and b[0] is not _from and len(b[1]) == len(vec.v):
+        parent, pos = b
+        for i, p_ in enumerate(pos):
+            parent.v[p_] = vec.v[i]
+        sync_views(parent, vec)
+    for child, pos in getattr(vec, "views", ()):
+        if child is not _from and all(p_ < len(vec.v) for p_ in pos):
+            child.v = [vec.v[p_] for p_ in pos]
+            sync_views(child, vec)
+
+
 def store_subscript(it, obj, k, v, aug=False):
+    if isinstance(obj, Vec) and (getattr(obj, "base", None) is not None or getattr(obj, "views", None)):
+        _store_subscript(it, obj, k, v, aug)
+        sync_views(obj)
+        return
+    return _store_subscript(it, obj, k, v, aug)
+
+
+def _store_subscript(it, obj, k, v, aug=False):
     if hasattr(obj, "abs_setitem"):
         return obj.abs_setitem(it, k, v, aug)
     accessor = None
@@ -1368,6 +1398,15 @@ def vec_method(it, obj, name, args, kw):
         return Vec(obj.v, fresh=True)          # a new 0..n-1 index
     if name in ("copy", "to_numpy", "tolist", "reset_index", "ravel", "flatten", "squeeze", "to_list"):
         return Vec(obj.v) if name != "tolist" else list(obj.v)
+    if name == "reshape" and not (obj.aligned or obj.fresh):
+        shape = args[0] if len(args) == 1 and isinstance(args[0], (tuple, list)) else args
+        if len(shape) == 1 and (shape[0] == -1 or (isinstance(shape[0], int) and not isinstance(shape[0], bool) and shape[0] == len(obj.v))
+                                or (isinstance(shape[0], NRows) and shape[0].n == len(obj.v))):
+            r = Vec(obj.v)                        # the same elements as a 1-D array of that many elements
+            r.exact = obj.exact
+            return r
+        if len(shape) == 1 and isinstance(shape[0], int) and obj.exact:
+            raise Raised("ValueError", f"cannot reshape array of size {len(obj.v)} into shape ({shape[0]},)")
     if name == "astype":
         return lift1(lambda x: x if is_nan(x) and args[0] not in ("int", int) else astype(x, args[0]), obj)
     if name == "abs":
@@ -1877,7 +1916,9 @@ def ext_call(it, dotted, args, kw):
     if name == "np.flatnonzero" and args and isinstance(args[0], Vec) and all(isinstance(x, bool) for x in args[0].v):
         if not args[0].exact:
             return MaskIdx(args[0])                  # one slot per row class: the positions where the mask holds, kept as the mask (like np.nonzero(mask)[0])
-        return Vec([i for i, x in enumerate(args[0].v) if x])
+        r = Vec([i for i, x in enumerate(args[0].v) if x])
+        r.exact = True
+        return r
     if name == "np.nonzero" and args and isinstance(args[0], Vec):
         return (MaskIdx(args[0]),)
     if name in ("np.isfinite", "math.isfinite"):
@@ -1991,6 +2032,27 @@ def ext_call(it, dotted, args, kw):
             r.exact = c.exact and all(x.exact for x in args[1:] if isinstance(x, Vec))
             return r
         return args[1] if ai.truth(c) else args[2]
+    if name == "np.select" and len(args) >= 2 and isinstance(args[0], (list, tuple)) and isinstance(args[1], (list, tuple)) and len(args[0]) == len(args[1]) \
+            and args[0] and all(isinstance(c, Vec) for c in args[0]):
+        # np.select(conditions, choices, default): per element, the choice of the first condition that holds
+        n = len(args[0][0].v)
+        if any(len(c.v) != n for c in args[0]):
+            raise Raised("ValueError", "np.select: conditions of different lengths")
+        default = args[2] if len(args) > 2 else kw.get("default", 0)
+        choices = [bcast(ch, n) for ch in args[1]] + [bcast(default, n)]
+        out = []
+        for i in range(n):
+            pick = len(args[0])
+            for j, c in enumerate(args[0]):
+                if c.v[i] is True:
+                    pick = j
+                    break
+                if c.v[i] is not False and c.v[i] is not None:
+                    raise Undecided(f"np.select on an undecided condition {c.v[i]!r}")
+            out.append(choices[pick][i])
+        r = Vec(out)
+        r.exact = all(c.exact for c in args[0])
+        return r
     if name in ("np.asarray", "np.array", "np.asfarray", "pd.Series", "np.atleast_1d"):
         a0 = args[0] if args else kw.get("data")
         fresh = name == "pd.Series" and "index" not in kw
@@ -2177,6 +2239,9 @@ def ext_call(it, dotted, args, kw):
         tname, fields = args[0], args[1]
         fields = fields.split() if isinstance(fields, str) else list(fields)
         return lambda *a, **k: Row(dict(zip(fields, a), **k), fields)
+    if name == "itertools.count" and len(args) <= 2 and not kw and all(isinstance(a, int) and not isinstance(a, bool) for a in args):
+        import itertools
+        return itertools.count(*args)                     # consumed lazily by the interpreter's loops (bounded by MAX_LOOP)
     if name in ("itertools.chain",):
         out = []
         for a in args:
